@@ -10,7 +10,7 @@ class P(piperun.PipeProperty):
                     'batch', 'unbatch', 'items', 'tile', 'shuffleOnce', 'sort', 'shard', 'cache', 'catch',
                     'copy', 'prefetch')
 
-    source_modes = ('pickle', 'pickle', 'wu', 'copy')
+    source_modes = ('pickle', 'pickle', 'wu', 'copy', 'pickle', 'from', 'from_dataset')
 
     def oracle(self, p, obs):
         return oracles.c01(p, obs)
